@@ -1148,7 +1148,12 @@ class Interp:
         if isinstance(f, Builtin):
             return f.fn(*args, **kwargs)
         if isinstance(f, EnvFunc):
-            return f.fn(self, *args, **kwargs)
+            try:
+                return f.fn(self, *args, **kwargs)
+            except (KeyError, IndexError, AttributeError, TypeError) as e:
+                # the environment model of a contract was asked something it has no answer for (changed code calls it with
+                # arguments the contract never anticipated): this path is outside the model, not a crash of the checker
+                raise Unsupported(f"environment model {f.name}: {type(e).__name__}: {e}")
         if isinstance(f, BoundMethod):
             if isinstance(f.func, RepoFunc):
                 return self.call_repo(f.func, [f.obj] + list(args), kwargs, node)
